@@ -215,6 +215,11 @@ def trim_summaries(model):
     return trimming, dirtying, nondirty
 
 
+def assign_value_of(f, name):
+    vals = [n.value for n in walk_no_nested(f) if isinstance(n, ast.Assign) and len(n.targets) == 1 and isinstance(n.targets[0], ast.Name) and n.targets[0].id == name]
+    return vals[-1] if vals else None
+
+
 class _Rows:
     """abstract data array: the rows [lo, hi) of the original array"""
     _fin_attrs = ("size", "shape")
@@ -672,10 +677,26 @@ def rule_r5(chk, model):
     chk.ob("C10-R5", "dates.period_indexes", ok, "index of a period is period - base", "src/irispie/dates.py")
     # shift dispatch
     sh = model.methods["shift"]
-    src = unparse(sh.node).replace(" ", "")
-    ok = "ifisinstance(by,int):self._shift_by_number(by,**kwargs)" in src.replace("\n", "") and "method_name=f'_shift_{by}'" in src
+    from ..core import conditions_at
+    byp = params(sh.node)[1]
+    num_calls = [c for c in ast.walk(sh.node) if isinstance(c, ast.Call) and dotted(c.func) == "self._shift_by_number"]
+    kw_calls = [c for c in ast.walk(sh.node) if isinstance(c, ast.Call) and isinstance(c.func, ast.Call) and dotted(c.func.func) == "getattr"]
+    ok = None
+    if len(num_calls) == 1 and len(kw_calls) == 1:
+        lit = f"isinstance({byp},int)"
+        c_num = conditions_at(sh.node, num_calls[0])
+        c_kw = conditions_at(sh.node, kw_calls[0])
+        name_arg = kw_calls[0].func.args[1] if len(kw_calls[0].func.args) > 1 else None
+        name_src = assign_value_of(sh.node, name_arg.id) if isinstance(name_arg, ast.Name) else name_arg
+        from ..tpl import eval_str, NotAString
+        try:
+            fmt_ok = name_src is not None and eval_str(name_src, {byp: "KW"}) == "_shift_KW"
+        except NotAString:
+            fmt_ok = None
+        ok = None if fmt_ok is None else ((lit, True) in c_num and (lit, False) in c_kw and unparse(num_calls[0].args[0]) == byp and fmt_ok)
     have = [k for k in ("yoy", "soy", "eopy", "tty") if f"_shift_{k}" in model.methods]
-    chk.ob("C10-R5", "series.Series.shift[dispatch]", ok and len(have) == 4, f"keyword shifts dispatch to _shift_<kw>; defined: {have}", sh.loc())
+    chk.ob("C10-R5", "series.Series.shift[dispatch]", (ok and len(have) == 4) if ok is not None else None,
+           f"integers go to _shift_by_number, anything else to _shift_<kw>; defined: {have}", sh.loc())
 
 
 def rule_r6(chk, model):
